@@ -23,6 +23,7 @@ LITERAL_SITES = {
 def cursors(L):
     cs = [B(x) for x in range(0, L + 3)]
     cs += [E(-x) for x in range(0, L + 3)]
+    cs += [E(-(1 << 63))]   # the most negative cursor a file or a caller can hand in: out of bounds for every text
     return cs
 
 
@@ -281,6 +282,43 @@ def run(ctx):
                     return ("From<&Offset> for OffsetMode maps (%s, %s) to %r instead of %s" % (cname(k1), cname(k2), r, want), None)
         return None
     guarded(r_mode, "OffsetMode::from", model.fns["offsetmode.from"], o5)
+
+    # ---------------- LEN: the length an offset reports
+    r_len = ctx.rule("C04.LEN", "Offset::len answers end - begin for a well-ordered offset whose cursors have the same alignment, None for every other offset (mixed alignment, inverted, the most negative cursor), and never panics")
+    lens = [f for f in syn.fns if f.name == "len" and (f.self_ty or "") == "Offset" and f.file == "src/selector.rs" and f.body is not None]
+    if len(lens) != 1:
+        ctx.anchor_missing(r_len, "Offset::len")
+    else:
+        from formula import Evaluator as _Ev, StructVal as _SV, some as _some
+        fnl = lens[0]
+        ctx.functions_analysed.add(fnl.qual)
+        cs = [B(x) for x in range(0, 4)] + [E(-x) for x in range(0, 4)] + [E(-(1 << 63))]
+        nl = 0
+        badl = None
+        for c1 in cs:
+            for c2 in cs:
+                nl += 1
+                try:
+                    got = _Ev(hooks={}).run_body(fnl.body, {"self": _SV("Offset", {"begin": c1, "end": c2})})
+                except Panic as p_:
+                    badl = badl or ("panics", "Offset::len panics (%s) on the offset (%s, %s): an inverted or extreme offset has no length, which is what None is for" % (p_.kind, cname(c1), cname(c2)), p_.line)
+                    continue
+                except Unknown as u_:
+                    badl = badl or ("uninterpretable", "Offset::len is outside the evaluator's vocabulary (%s): not decided" % u_, None)
+                    break
+                a1, a2 = int(c1.args[0]), int(c2.args[0])
+                if c1.name == c2.name and a2 >= a1 and a1 != -(1 << 63):
+                    want = _some(a2 - a1)
+                    if got != want and not (isinstance(got, tuple) and got and got[0] == "some" and int(got[1]) == a2 - a1):
+                        badl = badl or ("value", "Offset::len gives %r for (%s, %s); expected Some(%d)" % (got, cname(c1), cname(c2), a2 - a1), None)
+                elif c1.name != c2.name and got is not None:
+                    badl = badl or ("mixed", "Offset::len gives %r for the mixed-alignment offset (%s, %s); its length is not defined without the text (documented: None)" % (got, cname(c1), cname(c2)), None)
+            if badl and badl[0] == "uninterpretable":
+                break
+        r_len.hit("Offset::len", sample={"cursor_pairs_evaluated": nl})
+        if badl:
+            ctx.report(r_len, badl[0], badl[1], fnl.file, badl[2] or fnl.line)
+        ctx.floor(r_len, nl, 80, "cursor pairs")
 
     # ---------------- STORE
     # (a) struct literal sites
